@@ -6,6 +6,7 @@ Extraction "Extract/m_profile.ml"
   Profile.s2l Profile.profile_of_index Profile.profile_options Profile.first_git_subcommand_index
   Profile.strip_profile_conflicts Profile.args_with_internal_git_profile Profile.effective_args
   Profile.global_args_for_exec Profile.normalize_global_args Profile.normalised_shape
+  Profile.resolve_command_base_dir Profile.final_dir
   Profile.all_comps Profile.effective Profile.canonical Profile.pinned_comps Profile.hyps_b
   Profile.should_drop Profile.tame Profile.entry_report Profile.inventory_ok
   Profile.inventory_exceptions_tight Profile.nul_paths_ok Profile.carries_globals Profile.exceptions
